@@ -11,7 +11,7 @@ dirs=${@:-$(ls -d seeded/*/)}
 for d in $dirs; do
   d=${d%/}; name=$(basename $d); prop=${name%%-*}
   also=$(python3 -c "import json,sys; print(' '.join(json.load(open('$d/meta.json')).get('also_check',[])))" 2>/dev/null)
-  git -C $R apply $d/patch.diff || { echo "$name: patch does not apply"; continue; }
+  git -C $R apply /verif/$d/patch.diff || { echo "$name: patch does not apply"; continue; }
   : > $d/result.log
   detected=false; exits=""
   for p in $prop $also; do
